@@ -8,6 +8,7 @@
 //! buffer capacity and heap limit.
 
 mod c02;
+mod c16;
 mod case;
 mod model;
 mod run;
@@ -31,7 +32,7 @@ fn drive_c02_c03(opts: &Opts) -> i32 {
         "same simulated runs as C02 (slice, readers under seeded read histories and buffer capacities, file/mmap, multi-line toggled), judged against an independent executable grep model (split at terminator, regex crate per line, textbook context windows, separators, numbering, offsets, stop-on-nonmatch) plus in-run sink invariants (offsets strictly increasing). distinct_nontrivial = distinct generated cases with delivered results whose buffer rolled under at least one history."
     };
     let mut rep = Report::new(opts, "exploration", rule);
-    let cases = opts.cases(9_000, 1_200_000);
+    let cases = opts.cases(50_000, 3_000_000);
     let histories = if opts.thorough() { 20 } else { 10 };
     let label = "c02c03";
     let seed = opts.seed;
@@ -89,6 +90,49 @@ fn drive_c02_c03(opts: &Opts) -> i32 {
     rep.finish()
 }
 
+/// Driver for properties whose per-case function needs no scratch directory.
+fn drive_simple(opts: &Opts, level: &str, label: &str, cases: u64, rule: &str, f: impl Fn(u64, &mut c02::Acc) + Sync) -> i32 {
+    let mut rep = Report::new(opts, level, rule);
+    let seed = opts.seed;
+    let run_range = |jobs: usize, n: u64| -> c02::Acc {
+        let accs = par_fold(jobs, n, 32, c02::Acc::new, |i, acc: &mut c02::Acc| {
+            let before = (acc.evals, acc.violations.len());
+            f(subseed(seed, label, i), acc);
+            if i < 1500 {
+                // digest: evaluations and violations produced by this case
+                let d = fnv_step(fnv_step(i, acc.evals - before.0), (acc.violations.len() - before.1) as u64);
+                acc.digests.push((i, d));
+            }
+        });
+        let mut total = c02::Acc::new();
+        for a in accs {
+            total.merge(a);
+        }
+        total
+    };
+    let total = run_range(opts.jobs, cases);
+    let st_n = cases.min(if opts.thorough() { 1500 } else { 300 });
+    let again = run_range(3, st_n);
+    let d1: std::collections::BTreeMap<u64, u64> = total.digests.iter().cloned().collect();
+    let mism = again.digests.iter().filter(|(i, d)| d1.get(i) != Some(d)).count();
+    if mism > 0 {
+        harness_error(&format!("determinism self-test failed: {mism} of {} re-executed cases differ", again.digests.len()));
+    }
+    rep.evaluations = total.evals + again.evals;
+    rep.distinct = total.distinct;
+    rep.faults = total.faults;
+    rep.probes = total.probes;
+    rep.samples = total.samples.into_iter().take(4).collect();
+    rep.violations = total.violations;
+    rep.extra.insert("strategy_mix".into(), total.styles.to_json());
+    rep.extra.insert("determinism_selftest".into(), json!({"cases_reexecuted": again.digests.len(), "mismatches": 0, "worker_threads": [opts.jobs, 3]}));
+    rep.extra.insert("components".into(), components());
+    rep.extra.insert("generated_cases".into(), json!(cases));
+    rep.extra.insert("exhaustive_within_case".into(), json!(true));
+    rep.assumptions = vec!["crash points are enumerated exhaustively within each generated case; cases themselves are sampled from the seed".into()];
+    rep.finish()
+}
+
 fn main() {
     let opts = Opts::parse();
     std::panic::set_hook(Box::new(|_| {}));
@@ -98,6 +142,7 @@ fn main() {
         let scratch = Scratch::new("ioreplay");
         let r = match v["kind"].as_str().unwrap_or("") {
             "c02c03" => c02::replay(&prop, &v, scratch.path()),
+            "c16" | "c16-printer" => c16::replay(&v),
             k => harness_error(&format!("unknown replay kind {k}")),
         };
         match r {
@@ -114,6 +159,9 @@ fn main() {
     }
     let code = match opts.property.as_str() {
         "C02" | "C03" => drive_c02_c03(&opts),
+        "C16" => drive_simple(&opts, "fault_enumeration", "c16", opts.cases(60_000, 3_000_000),
+            "per generated case (<=24 lines; LF/CRLF; line and multi-line patterns; binary detection none/quit/convert with a planted NUL) the uninterrupted event stream E is recorded for the slice strategy and for a reader under a seeded history and buffer capacity; then EVERY crash point of that case is executed: each event index k (begin, match, context, separator, binary notice) x {stop, error} and each read index j x {error, Interrupted}; plus the Standard/JSON/Summary printers with max_matches=N for every N in 0..#matches+1 (slice and reader) and a writer failing after k bytes. One evaluation = one search run with one injected crash point. distinct_nontrivial = distinct generated cases whose uninterrupted stream has more than two events.",
+            |sub, acc| c16::run_case(sub, acc)),
         p => harness_error(&format!("iosim does not serve {p}")),
     };
     std::process::exit(code);
